@@ -141,7 +141,20 @@ static int c19_read(vbi_capture *c, vbi_capture_buffer **raw, vbi_capture_buffer
     if (n > C19_MAXLINES) n = C19_MAXLINES;
     if (n > c19_dec.count[0] + c19_dec.count[1]) n = c19_dec.count[0] + c19_dec.count[1];   /* contract: at most count[0]+count[1] lines */
     for (i = 0; i < C19_MAXLINES; i++)
-      if ((int) i < n) memcpy(dst + 64 * i, C19.frame_data[i], 64);
+      if ((int) i < n) {
+#ifdef VERIF_CBMC
+        /* typed, member-wise copy (x86 byte order), same bytes as the memcpy of the native build: CBMC models memcpy by array constraints
+           over the WHOLE destination object - a queue element, which also holds the list pointer, line count and reference count.  After a
+           memcpy none of them is a constant for symex any more (C18 seq_*: 230 000 symex steps, symbolic number of send() calls; with the
+           member-wise copy everything that selects a path stays concrete and a CONSTANT service id set by a harness reaches the daemon's filter) */
+        vbi_sliced *out = (vbi_sliced *) (void *) dst + i; const uint8_t *s = C19.frame_data[i]; unsigned b;
+        out->id = (uint32_t) s[0] | ((uint32_t) s[1] << 8) | ((uint32_t) s[2] << 16) | ((uint32_t) s[3] << 24);
+        out->line = (uint32_t) s[4] | ((uint32_t) s[5] << 8) | ((uint32_t) s[6] << 16) | ((uint32_t) s[7] << 24);
+        for (b = 0; b < 56; b++) out->data[b] = s[8 + b];
+#else
+        memcpy(dst + 64 * i, C19.frame_data[i], 64);
+#endif
+      }
     (*sliced)->size = n * 64;
     (*sliced)->timestamp = C19.frame_ts;
   }
